@@ -183,6 +183,40 @@ def oracle_drift(args):
 
 
 @safe_oracle
+def oracle_input_dtype(args):
+    """the initial position may be handed over in any numeric dtype (float32 array, numpy float32 scalar, int): the run is the run
+    from the same VALUES in double precision - same snapshots bit for bit, hence the same energies"""
+    import mudslide
+    model_name = args["model"]
+    vals = [float(np.float32(v)) for v in args["x0"]]          # values exactly representable in single precision
+    runs = {}
+    for kind in ("float64", args["kind"]):
+        model = mudslide.models.scattering_models[model_name]()
+        x = np.array(vals, dtype=np.float64)
+        if kind == "float32":
+            x = np.array(vals, dtype=np.float32)
+        elif kind == "float32-scalar":
+            x = np.float32(vals[0])
+        elif kind == "list":
+            x = list(vals)
+        t = getattr(mudslide, args["cls"])(model, x, np.array(args["p0"], dtype=np.float64), 0, dt=float(args["dt"]), max_steps=int(args["steps"]),
+                                           zeta_list=[1e300] * (int(args["steps"]) + 5), seed_sequence=3)
+        tr = t.simulate()
+        runs[kind] = ([np.asarray(s_["position"]).astype(np.float64).tolist() for s_ in tr], [float(s_["energy"]) for s_ in tr],
+                      str(np.asarray(t.position).dtype))
+    a_, b_ = runs["float64"], runs[args["kind"]]
+    problems = []
+    if b_[2] != "float64":
+        problems.append("the trajectory carries its position as %s when started from a %s position" % (b_[2], args["kind"]))
+    if a_[0] != b_[0] or a_[1] != b_[1]:
+        k_ = next((i for i, (u, v) in enumerate(zip(a_[0], b_[0])) if u != v), None)
+        de = max(abs(u - v) for u, v in zip(a_[1], b_[1]))
+        problems.append("started from the same values as %s the run differs from the double-precision run (first at snapshot %r; "
+                        "total energies differ by up to %.3g)" % (args["kind"], k_, de))
+    return not problems, {"problems": problems[:2]}, {"problems": []}, "; ".join(problems[:2]) or "ok"
+
+
+@safe_oracle
 def oracle_batch_energy(args):
     """a batch whose generator varies the starting point (TrajGenNormal): every trajectory's logged potential is the energy of ITS
     active state at ITS position (fresh model object, 1e-10), from the very first snapshot, and its total energy stays put
@@ -230,7 +264,7 @@ def oracle_restart_energy(args):
         "after the restart at snapshot %d the logged total energy differs from the uninterrupted run by %.3g (its own drift: %.3g)" % (n_before, dev, drift_u)
 
 
-ORACLES = {"batch_energy": oracle_batch_energy, "restart_energy": oracle_restart_energy, "hop_energy": oracle_hop_energy, "run_hops": oracle_run_hops, "drift": oracle_drift}
+ORACLES = {"input_dtype": oracle_input_dtype, "batch_energy": oracle_batch_energy, "restart_energy": oracle_restart_energy, "hop_energy": oracle_hop_energy, "run_hops": oracle_run_hops, "drift": oracle_drift}
 
 
 # ------------------------------------------------------------------------------------------------
@@ -408,6 +442,15 @@ def run(ctx):
         ctx.count("drift_runs_on_builtin_models_with_non_default_parameters")
         if not ok:
             ctx.oracle_fail("energy-drift-order", "drift", spec, obs, req, text)
+    # the initial position in other numeric dtypes
+    for j in range(ctx.budget(4, 24)):
+        a = dict(model=["simple", "dual"][j % 2], cls=["TrajectorySH", "TrajectoryCum", "Ehrenfest"][j % 3], kind=["float32", "float32-scalar", "list", "float32"][j % 4],
+                 x0=[float(rng.uniform(-2.0, -0.5))], p0=[float(rng.uniform(10, 25))], dt=float(rng.choice([1.0, 4.0])), steps=30)
+        ok, obs, req, text = oracle_input_dtype(a)
+        ctx.case(("input-dtype", a["kind"], a["cls"]))
+        ctx.count("runs_started_from_non_double_positions")
+        if not ok:
+            ctx.oracle_fail("input-dtype", "input_dtype", a, obs, req, text)
     # batches whose members start at DIFFERENT points
     for j in range(ctx.budget(2, 12)):
         a = dict(model=["simple", "dual"][j % 2], cls=["TrajectorySH", "TrajectoryCum"][(j // 2) % 2], samples=4, x0=float(rng.uniform(-1.5, -0.5)),
